@@ -18,6 +18,7 @@ import (
 	"encoding/json"
 	"fmt"
 	"math/rand"
+	"strings"
 
 	"github.com/linuxboot/fiano/pkg/cbfs"
 	"github.com/linuxboot/fiano/pkg/compression"
@@ -75,6 +76,33 @@ const cbfsFmapLen = 0x100 // flash map region in front of the archive
 
 // cbfsImage packs the records (64-byte aligned) behind a flash map with the areas FMAP and COREBOOT
 // and returns the image with its field map.
+// cbfsCombos: the three nested sizes of a CBFS image lie together — the flash size of the fmap header, the
+// size of the COREBOOT area, and a length field of a file record inside the area.  Each lie alone is caught
+// (NewImage clamps the area to the bytes that are there, NewFile bounds the record by the area); only when
+// the outer ones agree on a larger flash can a record length be believed.  Axes: fmap.Size, COREBOOT.Size,
+// Size / SubHeaderOffset / AttrOffset of the first records.
+func cbfsCombos(total, areaLen int, fs []core.Field) []ComboAxis {
+	var recF []core.Field
+	n := 0
+	for _, f := range fs {
+		if strings.HasSuffix(f.Name, ".Size") && f.BE && !strings.Contains(f.Name, ".attr") && !strings.Contains(f.Name, ".stage") {
+			n++
+		}
+		if n > 3 {
+			break
+		}
+		if f.BE && (strings.HasSuffix(f.Name, ".Size") || strings.HasSuffix(f.Name, ".SubHeaderOffset") || strings.HasSuffix(f.Name, ".AttrOffset")) &&
+			!strings.Contains(f.Name, ".attr") && !strings.Contains(f.Name, ".stage") {
+			recF = append(recF, f)
+		}
+	}
+	return []ComboAxis{
+		{Fields: []core.Field{{Name: "fmap.Size", Off: 18, W: 4}}, Values: []uint64{0xffffffff, uint64(total) + 0x1000}},
+		{Fields: []core.Field{{Name: "fmap.COREBOOT.Size", Off: 56 + 42 + 4, W: 4}}, Values: []uint64{0xffffff00, uint64(areaLen) + 0x800}},
+		{Fields: recF, Values: []uint64{64 << 20, 0x7fffffff}},
+	}
+}
+
 func cbfsImage(recs []cbfsRec, tail int) ([]byte, []core.Field, []Rel) {
 	var area []byte
 	var starts []int
@@ -224,7 +252,11 @@ func cbfsSeeds(r *rand.Rand) []Seed {
 	var ss []Seed
 	add := func(name string, recs []cbfsRec, tail int) {
 		img, fs, rs := cbfsImage(recs, tail)
-		ss = append(ss, Seed{Name: name, In: img, Fields: fs, Rels: rs})
+		sd := Seed{Name: name, In: img, Fields: fs, Rels: rs}
+		if name == "synthetic" || name == "master-only" {
+			sd.Combos = cbfsCombos(len(img), len(img)-cbfsFmapLen, fs)
+		}
+		ss = append(ss, sd)
 	}
 	master := make([]byte, 32)
 	be.PutUint32(master, 0x4F524243)
@@ -293,8 +325,14 @@ func init() {
 	// finding C20-lzma-dictcap-cbfs, matched by this op); everything cbfs itself does is also
 	// exercised, without that excuse, by cbfs.image.
 	Register(&EP{
-		Name:  "cbfs.extract",
-		Seeds: cbfsSeeds,
+		Name: "cbfs.extract",
+		Seeds: func(r *rand.Rand) []Seed {
+			ss := cbfsSeeds(r)
+			for i := range ss {
+				ss[i].Combos = nil // the nested-size combinations are NewImage's business: cbfs.image runs them
+			}
+			return ss
+		},
 		Run: func(in []byte, _ map[string]string) Res {
 			img, err := cbfs.NewImage(bytes.NewReader(in))
 			if err != nil {
